@@ -32,6 +32,7 @@ type c20Opts struct {
 func c20Body(o c20Opts) func() {
 	return func() {
 		var rc *recordingCallbacks
+		closeReturned := false
 		var later []*recordingCallbacks // a stream closed locally without the peer knowing can be "accepted" again (C10's matter)
 		var srvStream *Stream
 		lcb := &listenCB{}
@@ -45,8 +46,13 @@ func c20Body(o c20Opts) func() {
 			}
 			srvStream = s
 			rc = &recordingCallbacks{st: s}
-			if o.chunk > 0 || o.closeInCB {
+			{
 				rc.onData = func(r BufferReader) {
+					if closeReturned {
+						// "... and stops being offered once the stream is closed": no OnData call may START after a local
+						// Close has returned (one that was already running may finish)
+						vrt.Failf("ondata-after-close", "an OnData call started after Stream.Close had returned (%d bytes consumed before, %d buffered now)", len(rc.got), r.Len())
+					}
 					n := r.Len()
 					if o.chunk > 0 && n > o.chunk {
 						n = o.chunk
@@ -58,6 +64,7 @@ func c20Body(o c20Opts) func() {
 					r.ReleasePreviousRead()
 					if o.closeInCB && rc.calls == 1 {
 						s.Close()
+						closeReturned = true
 					}
 				}
 			}
@@ -94,6 +101,7 @@ func c20Body(o c20Opts) func() {
 				vrt.Point("wait-stream", func() bool { return srvStream != nil })
 				vrt.AnyMoment()
 				srvStream.Close()
+				closeReturned = true
 			}))
 		}
 		vrt.WaitThreads(ths...)
@@ -133,5 +141,7 @@ func TestVerif_C20(t *testing.T) {
 		{Name: "two-then-peer-close", Bound: 2, BoundT: 3, Body: c20Body(c20Opts{sizes: []int{5, 6}, peerClose: true})},
 		{Name: "two-local-close-anytime", Bound: 2, BoundT: 3, Body: c20Body(c20Opts{sizes: []int{5, 6}, localClose: true})},
 		{Name: "two-close-inside-ondata", Bound: 2, BoundT: 3, Body: c20Body(c20Opts{sizes: []int{5, 6}, closeInCB: true})},
+		{Name: "close-inside-ondata-with-bytes-left", Bound: 1, BoundT: 2, Body: c20Body(c20Opts{sizes: []int{8, 6}, chunk: 3, closeInCB: true})},
+		{Name: "local-close-anytime-chunked", Bound: 1, BoundT: 2, Body: c20Body(c20Opts{sizes: []int{8, 6}, chunk: 3, localClose: true})},
 	})
 }
